@@ -247,6 +247,14 @@ Definition py_slice_from_neg (v : pyval) (k : nat) : res pyval :=
 Definition py_slice_from (v : pyval) (k : nat) : res pyval :=
   with_str v (fun s => Ok (PStr (skipn k s))).
 
+(** all(c in allowed for c in s) for a constant string [allowed]; iterating a non-str
+    that is not iterable raises TypeError (tuples of strings are not used by the sources) *)
+Definition py_all_chars_in (v : pyval) (allowed : str) : res pyval :=
+  match v with
+  | PStr s => Ok (PBool (forallb (fun c => memN c allowed) s))
+  | _ => Err TypeErr
+  end.
+
 (** dict literal lookup by == ; KeyError when absent; unhashable keys are not modelled *)
 Fixpoint py_dict_get (d : list (pyval * pyval)) (k : pyval) : res pyval :=
   match d with
